@@ -283,6 +283,23 @@ class World(object):
                     if t['state'] == rps.FAILED:
                         self.failed.add(t['uid'])
 
+        # nobody is failed by the scheduler while an eligible pilot exists
+        for uid in sorted(self.failed):
+            t = self.task_by_uid(uid)
+            if t['pilot'] or uid in self.pushed:
+                continue
+            if sched == 'rr':
+                elig = sorted(self.added)
+            else:
+                elig = [p for p in sorted(self.added)
+                        if self.pstate.get(p) == rps.PMGR_ACTIVE]
+            if elig:
+                raise Violation('failed-with-eligible-pilot|%s|%s'
+                                % (self.site(ev[0]), ev[0]),
+                                '%s was FAILED by the scheduler, eligible '
+                                'pilots %s; events %s'
+                                % (uid, elig, self.trace))
+
         # round robin: one batch, unchanged pilot set
         if sched == 'rr' and per_pilot and len(self.added) > 1:
             counts = [per_pilot.get(p, 0) for p in self.added]
